@@ -461,7 +461,7 @@ def _random_big(tier):
 def _two_lcs(tier):
     return G.batch_of(_decorated(G.random_graph(5, 7, ('n', 'n', 'as'), limit=80,
                                                 families=('two-lcs', 'layered')), 1),
-                      (1, 3, 2, 3, 4))
+                      (1, 6, 8, 10, 12, 9))   # many lexicons/rowids: varied Synset hashes
 
 
 SUBS = [
@@ -479,6 +479,6 @@ SUBS = [
         budget={'quick': 25, 'thorough': 80}, sample=_sample, purge_every=8, case_timeout=900,
         require_tags=('family:layered', 'family:cyclic', 'family:diamonds')),
     Sub('several-lcs', oracle, _classify, strategy=_two_lcs,
-        budget={'quick': 30, 'thorough': 120}, sample=_sample, purge_every=8, case_timeout=900,
+        budget={'quick': 30, 'thorough': 60}, sample=_sample, purge_every=8, case_timeout=900,
         require_tags=('>=2-LCS', '>=2-LCS-at-different-distances', 'family:two-lcs')),
 ]
